@@ -235,11 +235,20 @@ def judge(ctx, cases, shrink=True):
     recs, _ = judge_once(ctx, cases)
     if not shrink:
         return recs
-    deep = [r for r in recs if r["depth"] > 1 and r["kind"] in ("wrong-value", "nondeterministic", "print-rebuild", "frame", "panic")]
-    if not deep:
+    deep_all = [r for r in recs if r["depth"] > 1 and r["kind"] in ("wrong-value", "nondeterministic", "print-rebuild", "frame", "panic")]
+    if not deep_all:
         return recs
+    # per (kind, locus) group the 8 smallest nested witnesses are shrunk; if all of them reduce to a sub-call the rest of
+    # the group is attributed to the same sub-call (same defect seen through a larger plan), otherwise it stays as it is
+    groups = {}
+    for r in deep_all:
+        groups.setdefault((r["kind"], r["locus"]), []).append(r)
+    deep = []
+    for g in groups.values():
+        g.sort(key=lambda r: verif.wsize(r["witness"]))
+        deep += g[:8]
     subs, owner, seen = [], [], {}
-    for ri, r in enumerate(deep[:600]):
+    for ri, r in enumerate(deep):
         focus_calls = subcalls(r["plan"], [])
         for sc in focus_calls[1:]:
             for plan in (sc, {"t": "call", "fn": "set", "a": [ASM_PATH, sc]}):
@@ -256,17 +265,23 @@ def judge(ctx, cases, shrink=True):
     for s in srecs:
         key = json.dumps([s["case"]["plan"], s["case"]["root"]], sort_keys=True)
         by_case.setdefault(seen.get(key, -1), []).append(s)
-    out = [r for r in recs if r not in deep[:600]]
-    for ri, r in enumerate(deep[:600]):
+    best_of = {}
+    for ri, r in enumerate(deep):
         cands = []
         for (o, si) in owner:
             if o == ri:
                 cands += [s for s in by_case.get(si, []) if s["kind"] == r["kind"]]
         if cands:
-            best = min(cands, key=lambda s: (s["depth"], verif.wsize(s["witness"])))
-            out.append(best)
+            best_of[id(r)] = min(cands, key=lambda s: (s["depth"], verif.wsize(s["witness"])))
+    out = [r for r in recs if not (r["depth"] > 1 and (r["kind"], r["locus"]) in groups)]
+    for key, g in groups.items():
+        reps = g[:8]
+        moved = [best_of[id(r)] for r in reps if id(r) in best_of]
+        if len(moved) == len(reps):
+            fallback = min(moved, key=lambda s: (s["depth"], verif.wsize(s["witness"])))
+            out += moved + [fallback] * (len(g) - len(reps))
         else:
-            out.append(r)
+            out += moved + [r for r in reps if id(r) not in best_of] + g[8:]
     return out
 
 
